@@ -2622,6 +2622,12 @@ fn normalize_query_for_search<'a>(
     if norm_sq <= f32::EPSILON {
         anyhow::bail!("embedding norm is zero; cannot normalize");
     }
+    // Finite components can still overflow the squared norm; scaling by 1/inf would turn the
+    // query into the zero vector, which the cold tier then rejects and which is counted against
+    // its circuit breaker as if the tier had failed.
+    if !norm_sq.is_finite() {
+        anyhow::bail!("embedding norm overflows; cannot normalize");
+    }
     if (NORMALIZATION_NORM_SQ_MIN..=NORMALIZATION_NORM_SQ_MAX).contains(&norm_sq) {
         return Ok(Cow::Borrowed(query));
     }
